@@ -267,7 +267,11 @@ impl Engine for CoreEngine {
         let prop = g.prop.as_str();
         let thorough = g.tier == "thorough";
         let (nthreads, nsteps, ncoll, sync) = match prop {
-            "C01" => (rng.range(1, 3), rng.range(6, if thorough { 40 } else { 28 }), rng.range(1, 6), false),
+            "C01" => {
+                // a quarter of the runs explore schedules (first hits racing under different collectors)
+                let sync = rng.chance(1, 4);
+                (if sync { rng.range(2, 3) } else { rng.range(1, 3) }, rng.range(6, if sync { 14 } else if thorough { 40 } else { 28 }), rng.range(1, 6), sync)
+            }
             "C02" => (rng.range(1, 4), rng.range(4, if thorough { 30 } else { 20 }), rng.range(1, 4), rng.chance(1, 2)),
             _ => (rng.range(2, 3), 0, rng.range(1, 3), true),
         };
@@ -347,12 +351,13 @@ impl Engine for CoreEngine {
             }
             // interleave threads' steps in the list (order across threads is irrelevant in sync mode)
         } else {
-            let allow_dyn = prop == "C01";
+            let allow_dyn = prop == "C01" && !sync;
             let mut created: Vec<u64> = vec![];
             let mut open_depth = vec![0u64; nthreads as usize];
             let f1_trigger_mode = g.mode == "probe:F1";
             let f1_guard = prop == "C02" && finding_open("F1") && !f1_trigger_mode;
             let mut global_done = false;
+            let site_base = rng.below(sites::N as u64);
             let mut touched = vec![false; nthreads as usize]; // thread touched its dispatcher TLS before the global install
             for i in 0..nsteps {
                 let t = rng.below(nthreads);
@@ -367,7 +372,8 @@ impl Engine for CoreEngine {
                     continue;
                 }
                 let k = *rng.pick(&created);
-                let site = rng.below(sites::N as u64);
+                // schedules: a small shared pool of sites so that first hits collide
+                let site = if sync { (site_base + rng.below(2)) % sites::N as u64 } else { rng.below(sites::N as u64) };
                 let kind = rng.below(2);
                 let st = match roll {
                     12..=19 => {
@@ -398,7 +404,8 @@ impl Engine for CoreEngine {
                         json!({"t": t, "op": "with", "k": k, "inner": inner, "panic": rng.chance(1, 3)})
                     }
                     34..=39 => {
-                        if prop == "C01" && rng.chance(1, 2) {
+                        if prop == "C01" && (sync || rng.chance(1, 2)) {
+                            // (in sync granularity C01 installs no global default: that race is C04's F11)
                             json!({"t": t, "op": "drop", "k": k})
                         } else if f1_guard && touched.iter().any(|x| *x) && !global_done {
                             // while F1 is open, must-hold runs install the global default only if no
